@@ -554,6 +554,17 @@ def check(ctx):
     check_support(ctx, cls)
     check_aggregation(ctx, cls)
     check_rejection(ctx)
+    # "the log-prior of a parameter vector is the sum over parameters" of each parameter's own density at its own value: the sampler's
+    # coordinates are attached to the estimated parameters name by name before check_prior sees them (C15 R15.5, by evaluation) - re-emitted
+    from ..core import SubCtx
+    from . import c15
+    for m_ in ('inference_setup',):
+        ctx.prog.mod(m_)
+    sub = SubCtx(ctx)
+    c15.check_evaluation(sub)
+    for rule, key, ok, where, what, detail in sub.got:
+        if rule == 'R15.5-function-of-theta' and key in ('DeterministicInference', 'StochasticInference'):
+            ctx.ob('R16.3-aggregation', 'own-value/%s' % key, ok, where, what, detail)
     ctx.floor('R16.1-density', 7)
     ctx.floor('R16.2-support', 10)
     ctx.floor('R16.3-aggregation', 3)
